@@ -44,11 +44,13 @@ def cov_model(m, *a, **k):
 
 
 class AbstractF:
-    """value of the score function of the nu update: only its sign is used by the code (nu = inf branch); every arithmetic
-    operation is absorbed and the comparison with 0 is a symbolic Boolean owned by the harness."""
+    """value of the score function of the nu update: only its sign at the probe points is used by the code (nu = inf / finite root /
+    lower end of the bracket); every arithmetic operation is absorbed and the comparisons with 0 are symbolic Booleans owned by the
+    harness: `>= 0` / `< 0` (asked at the upper probe) share one Boolean, `> 0` / `<= 0` (asked at the lower probe) another."""
 
-    def __init__(self, flag):
+    def __init__(self, flag, flag_lo=None):
         self.flag = flag
+        self.flag_lo = flag_lo if flag_lo is not None else flag
 
     def _same(self, *a):
         return self
@@ -57,6 +59,15 @@ class AbstractF:
 
     def __ge__(self, o):
         return self.flag
+
+    def __lt__(self, o):
+        return ~self.flag
+
+    def __gt__(self, o):
+        return self.flag_lo
+
+    def __le__(self, o):
+        return ~self.flag_lo
 
 
 def run_fit(ctx, data, tag):
@@ -67,17 +78,18 @@ def run_fit(ctx, data, tag):
     runs = ctx.notes.setdefault("_c19_runs", [])
 
     def nu_for(delta):
-        for (dl, nu_v, flag) in runs:
+        for (dl, nu_v, flag, flag_lo) in runs:
             same = z3.And(*[eq(p, q) for p, q in zip(dl, delta)])
             if ctx._query(z3.Not(same), timeout_ms=3000)[0] == "unsat":
-                return nu_v, flag
+                return nu_v, flag, flag_lo
         k = len(runs)
         nu_z = ctx.register(f"nu_{k}", z3.Real(f"nu_{k}"))
         ctx.assume(nu_z > 0)
         from vf.engine.util import boolean
         flag = boolean(ctx, f"nu_is_inf_{k}")
-        runs.append((delta, SymReal(nu_z, sign="+"), flag))
-        return runs[-1][1], flag
+        flag_lo = boolean(ctx, f"score_positive_at_lower_probe_{k}")
+        runs.append((delta, SymReal(nu_z, sign="+"), flag, flag_lo))
+        return runs[-1][1], flag, flag_lo
 
     def solve(A, B):
         X = solve_small(A, B)
@@ -85,7 +97,7 @@ def run_fit(ctx, data, tag):
         delta = [sum([B_[i][t] * X[i][t] for i in range(1, B_.shape[0])], B_[0][t] * X[0][t]) for t in range(B_.shape[1])]
         info["delta"] = delta
         info["Sigma0"] = np.asarray(A, dtype=object)
-        info["nu"], info["flag"] = nu_for(delta)
+        info["nu"], info["flag"], info["flag_lo"] = nu_for(delta)
         return X
 
     def bisect(f, a, b, *aa, **kk):
@@ -93,7 +105,7 @@ def run_fit(ctx, data, tag):
     opt = types.SimpleNamespace(bisect=bisect)
     spec = types.SimpleNamespace(psi=lambda v: 0.0)
     la = types.SimpleNamespace(solve=solve, LinAlgError=np.linalg.LinAlgError)
-    proxy = NpProxy(overrides={"cov": cov_model, "linalg": la, "log": lambda v: AbstractF(info["flag"])})
+    proxy = NpProxy(overrides={"cov": cov_model, "linalg": la, "log": lambda v: AbstractF(info["flag"], info.get("flag_lo"))})
     from vf.engine.core import DomainError
     try:
         with patched(student_mod, np=proxy, optimize=opt, special=spec):
